@@ -351,6 +351,24 @@ def entry_points(ctx, P):
     ctx.floor("C18.4 R-ORDER", 4)
 
 
+def every_byte(ctx, P):
+    """the byte-wise entry point feeds EVERY byte to the automaton (an ASCII byte inside an open multi-byte sequence is an
+    error only the automaton sees)"""
+    f = P.fn("utf8_checker.c:cjet_is_byte_sequence_valid")
+    loops = f.loops()
+    calls = f.calls("is_byte_valid")
+    ok = len(loops) == 1 and len(calls) == 1
+    if ok:
+        (h, body), = loops.items()
+        latches = [b for (b, hh) in f.back_edges() if hh == h]
+        ok = all(f.dominates(calls[0].block, b) for b in latches) and calls[0].block in body
+        arg = P.term(f, calls[0].a[1])
+        ok = ok and Q.mentions(arg, lambda x: x == ("param", 1, f.params[1]["name"]))
+    ctx.ob("C18.4 R-LOOP", f, "every-byte-reaches-the-automaton", ok,
+           "cjet_is_byte_sequence_valid() has an iteration that does not pass the byte to is_byte_valid() (e.g. an ASCII shortcut): "
+           "a sequence interrupted by such a byte is accepted")
+
+
 def tiling(ctx, P):
     """the auto-aligned front end cuts the input into (unaligned head, aligned words, tail): on every path the pieces handed
     to the validators are contiguous, start at the input and add up to exactly its length - no byte is skipped or read twice"""
@@ -388,6 +406,49 @@ def tiling(ctx, P):
             ok = False
         if not ok:
             bad = (pe, segs, summ)
+    # every piece's verdict takes part in the result, and no piece but the whole text is told "this is the end"
+    reach = set()
+    st = [i.a[0] for i in f.all_insts() if i.op == "ret" and i.a]
+    seen = set()
+    while st:
+        o = st.pop()
+        if not isinstance(o, int) or o < f.nparams or o in seen:
+            continue
+        seen.add(o)
+        ins = f.insts[o]
+        if ins.op == "call":
+            reach.add(o)
+            continue
+        if ins.op == "phi":
+            st.extend(v for v, _ in ins.inc)
+            # control dependence of a phi of constants: the branch conditions of its predecessors
+            for (_, pb) in ins.inc:
+                t = f.term_inst(pb)
+                if t.op == "br" and t.a:
+                    st.append(t.a[0])
+                for pp in f.preds[pb]:
+                    t2 = f.term_inst(pp)
+                    if t2.op == "br" and t2.a:
+                        st.append(t2.a[0])
+        else:
+            st.extend(x for x in ins.a if isinstance(x, int))
+    segcalls = [c for c in f.all_insts() if c.op == "call" and c.callee and P.srcname_of(c.callee) in VAL]
+    dropped = [c for c in segcalls if c.id not in reach]
+    ctx.ob("C18.4 R-RET", f, "every-piece-verdict-counts", not dropped and len(segcalls) >= 5,
+           "the verdict of %s at %s does not reach the result of the auto-aligned entry point: ill-formed bytes in that piece are "
+           "accepted" % (P.srcname_of(dropped[0].callee) if dropped else "?", dropped[0].loc if dropped else "?"))
+    early = None
+    for p_ in P.paths(f, loop_iters=1):
+        v = Q.PathView(P, f, p_)
+        cs = [i for _, i in v.calls() if i.callee and P.srcname_of(i.callee) in VAL]
+        if len(cs) > 1:
+            for c in cs:
+                if P.const_int(c.a[3]) != 0:
+                    early = c
+    ctx.ob("C18.4 R-PAIR", f, "pieces-are-not-told-the-text-ends", early is None,
+           "a piece of the text (%s at %s) is validated with is_complete set although more pieces follow or it is not the whole text: "
+           "a character that straddles the pieces is refused, depending on the buffer address" %
+           (P.srcname_of(early.callee) if early else "", early.loc if early else ""))
     ctx.ob("C18.4 R-CURSOR", f, "segments-tile-the-input", bad is None and n >= 3,
            "the pieces handed to the validators do not tile the input: %s, sum %s, expected start %s and length %s" %
            ("; ".join("(%s, %s bytes)" % (a_fmt(p_), a_fmt(b_)) for p_, b_, _ in bad[1]), a_fmt(bad[2]), a_fmt(seq), a_fmt(total)) if bad else
@@ -403,4 +464,5 @@ def run(ctx):
         fastpaths(ctx, P, trans, start)
         entry_points(ctx, P)
         tiling(ctx, P)
+        every_byte(ctx, P)
     ctx.floor("C18.2 R-PRODUCT", 4)
